@@ -135,7 +135,7 @@ func TestDrive(t *testing.T) {
 			}
 			cfgMT := ""
 			switch c.Cfg {
-			case "valid":
+			case "valid", "validempty":
 				cfgMT = validMT[rng.Intn(len(validMT))]
 			case "invalid":
 				cfgMT = invalidMT[rng.Intn(len(invalidMT))]
@@ -194,7 +194,7 @@ func TestDrive(t *testing.T) {
 			var cfgDesc *ocispec.Descriptor
 			if c.Cfg != "none" {
 				b := []byte(`{"cfg":true}`)
-				if c.Cfg == "emptyjson" {
+				if c.Cfg == "emptyjson" || c.Cfg == "validempty" {
 					b = []byte("{}")
 				}
 				d := content.NewDescriptorFromBytes(cfgMT, b)
